@@ -3,6 +3,7 @@ CONSTANTS
   K = 5
   N = 2
   MaxFreeze = 2
+  MaxCancel = 0
   Twin = "none"
   Record = FALSE
 INVARIANTS
